@@ -106,6 +106,8 @@ class Terms:
         if k == 'UnaryOperator':
             if n['op'] == '*':
                 return ('deref', T(n['c'][0]))
+            if n['op'] == '!':
+                return _not(T(n['c'][0]))
             return ('un', n['op'], bool(n.get('postfix')), T(n['c'][0]))
         if k == 'ConditionalOperator':
             return ('cond', T(n['cond']), T(n['then']), T(n['else']))
@@ -122,7 +124,7 @@ class Terms:
             if op in ('++', '--'):
                 return ('un', op, len(a) == 2, T(a[0]))
             if op == '!' and len(a) == 1:
-                return ('un', '!', False, T(a[0]))
+                return _not(T(a[0]))
             if op == '()':
                 return ('mcall', cal['tname'] if cal else '?', T(a[0]), tuple(T(x) for x in a[1:]))
             if len(a) == 2 and op in ('==', '!=', '<', '>', '<=', '>=', '=', '+=', '-=', '+', '-', '*', '<<', '>>'):
@@ -166,6 +168,16 @@ class Terms:
             cs = [c for c in n['c'] if c >= 0]
             return T(cs[0]) if cs else ('?', k, nid)
         return ('?', k, nid)
+
+
+def _not(t):
+    """!(a == b) is a != b (C++20 rewrites a != b into !(a == b)); anything else stays a negation"""
+    x = t
+    while x[0] in ('conv',) and len(x) == 3:
+        x = x[2]
+    if x[0] == 'bin' and x[1] == '==' and t is x:
+        return ('bin', '!=', x[2], x[3])
+    return ('un', '!', False, t)
 
 
 def subterms(t):
